@@ -177,7 +177,8 @@ def compile_obj(src, flags, hdig):
 
 def build_harness(pid, spec, variant):
     """variant: '' | 't32' | 't64' -> path of binary or (None, error text)"""
-    flags = CXXFLAGS + ['-D%s=1' % GUARD] + (T32 if variant == 't32' else []) + spec.get('cxxflags', [])
+    base = [f for f in CXXFLAGS if 'sanitize' not in f and f != '-fno-omit-frame-pointer'] if variant.startswith('mc') else CXXFLAGS
+    flags = base + ['-D%s=1' % GUARD] + (T32 if variant in ('t32', 'mc_t32') else []) + spec.get('cxxflags', [])
     gen_spec.run()
     hdig = headers_digest()
     srcs = [os.path.join(VERIF, 'harness', spec['harness'])] + [os.path.join(SRC, s) for s in spec.get('repo_srcs', [])]
@@ -196,7 +197,7 @@ def build_harness(pid, spec, variant):
     return binp, None
 
 
-def run_harness(binp, outdir, seed, tier, replay=None, timeout=3600, asan_extra=''):
+def run_harness(binp, outdir, seed, tier, replay=None, timeout=3600, asan_extra='', wrapper=(), extra_env=None):
     os.makedirs(outdir, exist_ok=True)
     for f in ('ops.txt', 'impl.out', 'oracle.txt', 'stats.json', 'model.out'):
         try:
@@ -205,7 +206,8 @@ def run_harness(binp, outdir, seed, tier, replay=None, timeout=3600, asan_extra=
             pass
     env = dict(os.environ, ASAN_OPTIONS='detect_leaks=0:abort_on_error=0:allocator_may_return_null=1' + asan_extra,
                UBSAN_OPTIONS='print_stacktrace=1:halt_on_error=1')
-    cmd = [binp, outdir, str(seed), tier] + ([replay] if replay else [])
+    env.update(extra_env or {})
+    cmd = list(wrapper) + [binp, outdir, str(seed), tier] + ([replay] if replay else [])
     try:
         r = subprocess.run(cmd, stdout=subprocess.PIPE, stderr=subprocess.STDOUT, text=True, env=env,
                            timeout=timeout, errors='replace')
@@ -263,6 +265,30 @@ def write_replay(pid, kind, payload):
     return os.path.relpath(path, VERIF)
 
 
+
+VALGRIND = ['valgrind', '--error-exitcode=9', '--exit-on-first-error=yes', '-q']
+
+
+def crash_info(pid, hout, rc):
+    """-> (key, text) for a harness that did not exit 0: sanitizer report, valgrind memcheck report, signal or timeout"""
+    m = re.search(r'(ERROR: AddressSanitizer: [\w-]+|runtime error: [^\n]*|SEGV[^\n]*|TIMEOUT[^\n]*)', hout)
+    vg = re.search(r'==\d+== ((?:Conditional jump|Use of uninitialised|Invalid (?:read|write|free)|Syscall param|Mismatched free|Source and destination overlap)[^\n]*)', hout)
+    if m:
+        what = m.group(1)
+        fn = re.search(r'#\d+ 0x[0-9a-f]+ in ([\w:~<>]+)[^\n]*?/src/', hout)
+    elif vg:
+        what = 'valgrind memcheck: ' + vg.group(1)
+        srcs = set(os.path.basename(f) for f in glob.glob(os.path.join(SRC, '*')))
+        fn = None
+        for fm in re.finditer(r'==\d+==\s+(?:at|by) 0x[0-9A-F]+: ([\w:~<>]+)[^\n]*\((\w+\.\w+):\d+\)', hout):
+            if fm.group(2) in srcs:
+                fn = fm
+                break
+    else:
+        what, fn = 'harness exit code %d' % rc, None
+    return '%s:crash:%s' % (pid, fn.group(1) if fn else 'unknown'), what
+
+
 # ---------------------------------------------------------------------------------------------- shrinking
 
 def shrink_case(pid, ent, seed, tier, budget_s=45.0):
@@ -279,10 +305,10 @@ def shrink_case(pid, ent, seed, tier, budget_s=45.0):
     def bad(cand):
         info['runs'] += 1
         open(tmp, 'w').write('\n'.join(cand) + '\n')
-        rc, hout = run_harness(binp, outdir, seed, tier, tmp, timeout=60, asan_extra=spec.get('asan_options', ''))
+        rc, hout = run_harness(binp, outdir, seed, tier, tmp, timeout=120, asan_extra=spec.get('asan_options', ''),
+                               wrapper=ent.get('_wrapper') or (), extra_env=ent.get('_env'))
         if ':crash:' in key:
-            fn = re.search(r'#\d+ 0x[0-9a-f]+ in ([\w:~<>]+)[^\n]*?/src/', hout)
-            return rc != 0 and key == '%s:crash:%s' % (pid, fn.group(1) if fn else 'unknown')
+            return rc != 0 and key == crash_info(pid, hout, rc)[0]
         for l in read_lines(os.path.join(outdir, 'oracle.txt')):
             parts = l.split(' ', 3)
             if len(parts) >= 3 and parts[0] == 'FAIL' and parts[1] == key:
@@ -312,25 +338,22 @@ def shrink_case(pid, ent, seed, tier, budget_s=45.0):
 
 # ------------------------------------------------------------------------------------------------- main
 
-def one_pass(pid, spec, variant, binp, seed, tier, findings, res, replay=None):
+def one_pass(pid, spec, variant, binp, seed, tier, findings, res, replay=None, wrapper=(), extra_env=None):
     """run harness+driver+oracle once; accumulate into res; return (corr_mismatch_info|None, new_oracle_fails)"""
     outdir = os.path.join(BUILD, pid, 'run_%s' % (variant or 'd'))
     rc, hout = run_harness(binp, outdir, seed, tier, replay, timeout=spec.get('timeout', 3600),
-                           asan_extra=spec.get('asan_options', ''))
+                           asan_extra=spec.get('asan_options', ''), wrapper=wrapper, extra_env=extra_env)
     ops = read_lines(os.path.join(outdir, 'ops.txt'))
     implo = read_lines(os.path.join(outdir, 'impl.out'))
     oracle = read_lines(os.path.join(outdir, 'oracle.txt'))
     cs = spec.get('case_start', ['reset'])
     new_fails = []
     if rc != 0:
-        # sanitizer abort / crash / timeout: an oracle failure for the op being executed (last op line)
-        m = re.search(r'(ERROR: AddressSanitizer: [\w-]+|runtime error: [^\n]*|SEGV[^\n]*|TIMEOUT[^\n]*)', hout)
-        what = m.group(1) if m else 'harness exit code %d' % rc
-        fn = re.search(r'#\d+ 0x[0-9a-f]+ in ([\w:~<>]+)[^\n]*?/src/', hout)
-        key = '%s:crash:%s' % (pid, fn.group(1) if fn else 'unknown')
+        # sanitizer abort / crash / timeout / memcheck report: an oracle failure for the op being executed (last op line)
+        key, what = crash_info(pid, hout, rc)
         res['crash'] = what
         ent = {'key': key, 'line': len(ops), 'text': what, 'case': case_of(ops, len(ops) - 1, cs) if ops else [],
-               'log_tail': hout[-3000:], 'variant': variant, '_bin': binp, '_spec': spec}
+               'log_tail': hout[-3000:], 'variant': variant, '_bin': binp, '_spec': spec, '_wrapper': wrapper, '_env': extra_env}
         if key in findings and findings[key].get('status') == 'open':
             res['known'].setdefault(key, ent)
         else:
@@ -431,10 +454,18 @@ def main():
                 for v in ex.get('variants', ['']):
                     if variant == 'x_' + ex['engine'] + ('_' + v if v else ''):
                         rspec, rvar = dict(spec, **ex), v
+        rwrap = ()
+        mcm = re.search(r'_(mc(?:_t32)?)$', variant)
+        if mcm:   # failure found under valgrind memcheck: rebuild without sanitizers and run under valgrind again
+            rvar, rwrap = mcm.group(1), VALGRIND
+            for ex in spec.get('extra', []):
+                if variant.startswith('x_' + ex['engine'] + '_'):
+                    rspec = dict(spec, **ex)
+            rspec = dict(rspec, no_model=True)
         binp, err = build_harness(pid, rspec, rvar)
         if not binp:
             print(err); return 2
-        mm, nf = one_pass(pid, rspec, variant, binp, seed, tier, findings, res, replay=tmp)
+        mm, nf = one_pass(pid, rspec, variant, binp, seed, tier, findings, res, replay=tmp, wrapper=rwrap)
         outdir = os.path.join(BUILD, pid, 'run_%s' % (variant or 'd'))
         for a, b, c in zip(read_lines(outdir + '/ops.txt'), read_lines(outdir + '/impl.out'),
                            read_lines(outdir + '/model.out') or [''] * 10 ** 6):
@@ -519,6 +550,21 @@ def main():
             if mm:
                 mismatches.append(mm)
             fails += nf
+    # valgrind memcheck runs (uninitialised reads, which ASan does not see) of the harnesses that ask for it, reduced case budget
+    for sub in [spec] + [dict(spec, **ex) for ex in spec.get('extra', [])]:
+        mc = sub.get('memcheck')
+        if not mc:
+            continue
+        for v in mc.get('variants', ['mc']):
+            binp, err = build_harness(pid, sub, v)
+            if not binp:
+                problems.append('harness build failed (%s %s): %s' % (sub['harness'], v, err[-800:]))
+                continue
+            sub_nm = dict(sub, no_model=True)
+            mm, nf = one_pass(pid, sub_nm, 'x_%s_%s' % (sub['engine'], v), binp, seed, tier, findings, res, wrapper=VALGRIND,
+                              extra_env={'N2K_FUZZ_CASES': str(mc.get('cases_thorough' if tier == 'thorough' else 'cases_quick', 40))})
+            fails += nf
+            ev_extra['memcheck_runs'] = ev_extra.get('memcheck_runs', 0) + 1
     # escalate the failing-input search when proof or correspondence broke and no concrete input is known yet
     if (mismatches or problems) and not fails and bins:
         n_extra = 6 if tier == 'quick' else 10
